@@ -377,7 +377,9 @@ class Engine:
             if not st.side:
                 return
             sink = st.side[-1]
-        if v.ty in ("str", "any"):
+        if v.ty == "any":
+            sink.append(v.z >= 0)  # the untyped universe includes None (0)
+        elif v.ty == "str":
             sink.append(v.z >= (0 if opt else 1))
         elif is_ref(v.ty):
             sink.append(z3.And(v.z >= (0 if opt else 1), v.z < st.nref))
@@ -423,6 +425,15 @@ class Engine:
         for nm, v in self.params.items():
             if not nm.startswith("$"):
                 st.vars[nm] = v
+        # field-granular frame: every field of the listed objects other than the declared ones is unchanged at every exit
+        snap = st.labels["entry"]
+        for objexpr, flds in c.d.get("only_fields", {}).items():
+            ref_ = self.in_snapshot("entry", parse_spec(objexpr)).z if True else None
+            st.spec += 1
+            st.spec -= 1
+            for hname in sorted(st.heap.m):
+                if hname.startswith("f.") and hname.split(".")[1] not in flds:
+                    self.oblige("frame-field", st.heap.m[hname].read(ref_) == snap.heap.get(hname, st.heap.sorts[hname]).read(ref_), f"{objexpr}.{hname.split('.')[1]}")
         if outcome[0] == "return":
             st.vars["result"] = outcome[1]
             self.covered.add("return")
@@ -592,12 +603,33 @@ class Engine:
     def set_kind(self, ref, kind):
         self.st.pc.append(z3.Function("kind", I, I)(ref) == atom("kind:" + kind))
 
-    def wframe(self, ref, what):
+    def wframe(self, ref, what, field=None):
         st = self.st
         if st.pure:
             raise NeedFork()
-        for k, nentry, mods in st.frames:
+        for fr in st.frames:
+            k, nentry, mods = fr[0], fr[1], fr[2]
+            only = fr[3] if len(fr) > 3 else []
             self.oblige("frame", z3.Or(ref >= nentry, *[ref == m for m in mods]), f"L{k}:{what}")
+            for m, allowed in only:
+                if field is not None and field not in allowed:
+                    # the loop declares that of this object only `allowed` fields change
+                    self.oblige("frame", ref != m, f"L{k}:{what} (field not in the loop's only_fields)")
+
+    def trace_prefix_preserved(self, pre_heap):
+        """the ghost trace only grows: after a havoc that includes it (loop, call), its old prefix is unchanged"""
+        st = self.st
+        if "$trace" not in st.vars:
+            return
+        t = st.vars["$trace"].z
+        n0 = pre_heap.get("len", I).read(t)
+        n1 = st.heap.get("len", I).read(t)
+        a0 = pre_heap.get("el.p", z3.ArraySort(I, I)).read(t)
+        a1 = st.heap.get("el.p", z3.ArraySort(I, I)).read(t)
+        k = z3.Int("k!tr")
+        st.pc.append(n1 >= n0)
+        st.pc.append(z3.ForAll([k], z3.Implies(z3.And(0 <= k, k < n0), a1[k] == a0[k])))
+        self.drain()
 
     def drain(self):
         st = self.st
@@ -610,8 +642,8 @@ class Engine:
         self.drain()
         return v
 
-    def hwrite(self, name, sort, ref, val, what=""):
-        self.wframe(ref, what or name)
+    def hwrite(self, name, sort, ref, val, what="", field=None):
+        self.wframe(ref, what or name, field)
         self.st.heap.store(name, sort, ref, val)
         self.drain()
 
@@ -761,7 +793,7 @@ class Engine:
             # e.g. a str stored where the contract declares a list: the declared shape of the field is part of the contract
             self.oblige("field-type", z3.BoolVal(False), f"{fname}: declared {tdecl if not isinstance(tdecl, tuple) else tdecl[0]}, stored {val.ty if not isinstance(val.ty, tuple) else val.ty[0]}")
         name = self.fld_name(oty, fname, ty)
-        self.hwrite(name, sort_of(ty), obj.z, val.z, f"{fname}")
+        self.hwrite(name, sort_of(ty), obj.z, val.z, f"{fname}", field=fname if oty[0] == "obj" else None)
         if is_opt(ty) and strip_opt(ty) in ("int", "real", "bool"):
             self.hwrite(name + "?", B, obj.z, val.none if val.none is not None else z3.BoolVal(False), f"{fname}")
         elif val.none is not None and not z3.is_false(z3.simplify(val.none)):
@@ -1158,6 +1190,13 @@ class Engine:
                 return z
             return z3.Or(z3.And(an, bn), z3.And(z3.Not(an), z3.Not(bn), z))
         if (a.ty in num) != (b.ty in num):
+            other = b if a.ty in num else a
+            if other.ty == "any":
+                if self.st.spec:
+                    raise OutOfSubset("spec compares an untyped value with a number (use isnone(x) / bool(x), or compare with a boxed value)")
+                # code: an untyped value equals a number iff it is that boxed number
+                numv = a if a.ty in num else b
+                return other.z == self.coerce(V(numv.ty, numv.z), "any").z if numv.none is None else z3.BoolVal(False)
             return z3.BoolVal(False)
         if isinstance(a.ty, tuple) and a.ty[0] == "tuple" and isinstance(b.ty, tuple) and b.ty[0] == "tuple":
             ai, bi_ = self.tuple_items(a), self.tuple_items(b)
@@ -1471,8 +1510,15 @@ class Engine:
                 st.vars[nm] = self.symbolic(nm, parse_type(spec.get("locals", {}).get(nm) or self.c.locals[nm]))
         st.nref = fresh("nref")
         st.pc.append(st.nref >= nentry)
-        st.heap.havoc(nentry, mods, st.nref)
+        pre_heap = st.heap.copy()
+        # field-granular loop frame: of the listed objects only the named fields change in the loop (each write is checked)
+        only = []
+        for objexpr, flds in spec.get("only_fields", {}).items():
+            only.append((self.ev_spec_value(objexpr).z, list(flds)))
+        st.heap.havoc(nentry, mods, st.nref, only)
         self.drain()
+        self.trace_prefix_preserved(pre_heap)
+        self.loop_only = only
         i = fresh(f"i{k}")
         st.vars[f"_i{k}"] = vint(i)
         st.vars[f"_nentry{k}"] = vint(nentry)
@@ -1490,7 +1536,7 @@ class Engine:
             if n.orelse:
                 self.block(n.orelse)
             return
-        st.frames.append((k, nentry, mods))
+        st.frames.append((k, nentry, mods, getattr(self, "loop_only", [])))
         st.idx.append(i)
         prefilter = is_for and getattr(self, "loop_prefilter", False)
         self.loop_prefilter = False
